@@ -19,7 +19,7 @@ NSample == 4000
 Seed == IF "C53_SEED" \in DOMAIN IOEnv THEN atoi(IOEnv.C53_SEED) ELSE 1
 
 ASSUME TotalOrderOn(U4 \cup Range(U5))
-Groups == {"unary", "vertex", "vlist", "elist", "elist3", "binary"} \cup (IF Thorough THEN {"sample5"} ELSE {})
+Groups == {"unary", "vertex", "vlist", "elist", "binary"} \cup (IF Thorough THEN {"elist3", "sample5"} ELSE {})
 OpsOf(g) ==
   CASE g = "unary"  -> {"vertices", "edges", "transpose_ugraph", "transitive_closure", "complement", "top_sort",
                         "vertices_edges_to_ugraph", "ve_implicit", "connect_ugraph"}
@@ -152,5 +152,5 @@ Cls ==
 Emit ==
   (phase = "case" /\ Applicable) =>
      LET r == Res IN
-     PrintT(ToJson([g |-> grp, op |-> op, args |-> Args, k |-> r.k, v |-> r.v, cls |-> Cls]))
+     PrintT(ToJson([g |-> grp, op |-> op, args |-> PkSeq(Args), k |-> r.k, v |-> Pk(r.v), cls |-> Cls]))
 =============================================================================
